@@ -68,8 +68,43 @@ BuildCheck(e, ch) ==
   <<B(e.panic = 0 /\ e.err = 0 /\ e.d = Dim(e.v) /\ ChShapeOK(e.rows, e.d, e.d)
       /\ RefCheck(ChUnRows(e.rows, e.d, e.d), e.v, e.ec, e.mask, e.cw, ch.fm, ch.pos) = <<TRUE, TRUE, TRUE>>)>>
 
+\* ---- C05: damaged symbols.  A fault is <<kind, a, b, c>>: kind 0 = codeword c-xor of codeword b (1-based, data then parity)
+\* of block a; kind 1/2 = bit a of format copy 1/2; kind 3/4 = bit a of version copy 1/2.
+FaultFlips(f, ver, ec, pos) ==
+  LET d == Dim(ver) IN
+  CASE f[1] = 0 -> LET s == IF f[3] <= BlockLen(ver, ec, f[2]) THEN DataIdx(ver, ec, f[2], f[3])
+                             ELSE EccIdx(ver, ec, f[2], f[3] - BlockLen(ver, ec, f[2]))
+                   IN {pos[8*(s-1) + j] : j \in {j \in 1..8 : Bit(f[4], 8 - j) = 1}}
+    [] f[1] = 1 -> {Format1(d)[f[2]]}
+    [] f[1] = 2 -> {Format2(d)[f[2]]}
+    [] f[1] = 3 -> {Version1(d)[f[2]]}
+    [] f[1] = 4 -> {Version2(d)[f[2]]}
+FaultShapeOK(f, ver, ec) ==
+  /\ Len(f) = 4 /\ f[1] \in 0..4
+  /\ (f[1] = 0 => f[2] \in 1..NBlocks(ver, ec) /\ f[3] >= 1 /\ f[3] <= BlockLen(ver, ec, f[2]) + ECPer(ver, ec) /\ f[4] \in 1..255)
+  /\ (f[1] \in {1, 2} => f[2] \in 0..14)
+  /\ (f[1] \in {3, 4} => ver >= 7 /\ f[2] \in 0..17)
+\* within the promised capacity: at most floor(ec/2) distinct codewords per block, at most 3 bits per format / version copy
+Within(fs, ver, ec) ==
+  LET F == {fs[i] : i \in 1..Len(fs)} IN
+  /\ \A b \in 1..NBlocks(ver, ec) : Cardinality({f[3] : f \in {g \in F : g[1] = 0 /\ g[2] = b}}) <= ECPer(ver, ec) \div 2
+  /\ \A k \in 1..4 : Cardinality({f[2] : f \in {g \in F : g[1] = k}}) <= 3
+  /\ Cardinality({<<f[1], f[2], f[3]>> : f \in F}) = Len(fs)
+DmgCheck(e, ch) ==
+  LET ver == e.v ec == e.ec
+      okSym == e.panic = 0 /\ e.err = 0 /\ ver = e.vh /\ ver \in 1..40 /\ Len(e.res) = Len(e.sets)
+      setOK(k) == LET st == e.sets[k] fs == st.faults IN
+                  IF ~(\A i \in 1..Len(fs) : FaultShapeOK(fs[i], ver, ec)) THEN FALSE
+                  ELSE LET want == UNION {FaultFlips(fs[i], ver, ec, ch.pos) : i \in 1..Len(fs)}
+                           scriptOK == {st.flip[i] : i \in 1..Len(st.flip)} = want /\ Len(st.flip) = Cardinality(want)
+                       IN /\ scriptOK
+                          /\ IF Within(fs, ver, ec) THEN e.res[k] = <<0, e.th[1], e.th[2]>>
+                             ELSE e.res[k][1] \in 1..3 \/ e.res[k] = <<0, e.th[1], e.th[2]>>      \* beyond capacity: an error or the right text, never other text
+  IN <<B(okSym), B(okSym => \A k \in 1..Len(e.sets) : setOK(k))>>
+
 NeedVersion(e) == CASE e.op = "enc" -> (IF e.err = 0 /\ e.chk = 1 /\ e.v \in 1..40 THEN e.v ELSE 0)
                     [] e.op = "build" -> e.v
+                    [] e.op = "dmg" -> (IF e.err = 0 /\ e.v \in 1..40 THEN e.v ELSE 0)
                     [] OTHER -> 0
 Init == l = 1 /\ bad = <<>> /\ cache = [v |-> 0, fm |-> <<>>, pos |-> <<>>]
 Next ==
@@ -84,6 +119,7 @@ Next ==
                 [] e.op = "fmt" -> FmtCheck(e)
                 [] e.op = "ver" -> VerCheck(e)
                 [] e.op = "build" -> BuildCheck(e, ch)
+                [] e.op = "dmg" -> DmgCheck(e, ch)
      IN /\ bad' = IF \A i \in 1..Len(r) : r[i] = 1 THEN bad ELSE Append(bad, <<l, e.op, r>>)
         /\ cache' = ch
 Spec == Init /\ [][Next]_vars
